@@ -33,7 +33,7 @@ ASSUMPTIONS = ['str methods used by the renderers (+, join, upper, format) move 
 
 ESC = '\033['
 CODE = re.compile(r'\x1b\[\d+(?::\d+m)?m?')
-IDS = [0, -7, 123456, 5, 31]
+IDS = [0, -7, 123456, 5, 31, 44, 50, 61, 72, 83, 94, 105]
 FIELD_MENU = [
     None,
     ['id', 'name'],
@@ -61,6 +61,9 @@ def gen(cfg):
     n = cfg['n']
     parent = [-1] * n
     for i in range(1, n):
+        if cfg.get('chain'):  # one chain of nested summaries: depth n - 1
+            parent[i] = i - 1
+            continue
         cands = [-1]
         j = i - 1
         while j != -1:
